@@ -8,7 +8,8 @@ PLAN = dict(
     assumptions=['the catalogue of targets/queries is a finite sample of prefix structures (equal, proper prefix, disjoint, empty, default)'],
     not_covered=['FromStr / Display round trips (regex grammar, string building)', 'EnvFilter agreement with Targets', 'span-scoped directives (by_cs / by_id / scope, matchers)', 'field-name directives against metadata fields'],
     kani=[dict(
-        crate="tracing-subscriber", tls_shim_crates=["tracing-core", "tracing-subscriber"], once_cell_stub=True,
+        crate="tracing-subscriber", tls_shim_crates=["tracing-core", "tracing-subscriber"], once_cell_stub=True, jobs=3,
+        no_default_features=True, features=["std", "fmt", "registry"],   # FilterVec = Vec (SmallVec<[_; 8]> exhausts CBMC memory)
         modules=[dict(name="__verif_c11", attach="inline", file="tracing-subscriber/src/filter/targets.rs", modpath="filter::targets",
                       files=["../common/sub_prelude.rs", "targets.kani.rs"])],
         append=_m.SUB_APPENDS,
